@@ -56,8 +56,8 @@ def strip_generics(t):
                     depth -= 1
                 j += 1
             i = j
-            if out and out[-1] == ':' and len(out) > 1 and out[-2] == ':' and i < n and t[i:i + 2] == '::':
-                # `Path::<T>::Variant` -> `Path::Variant`
+            if out and out[-1] == ':' and len(out) > 1 and out[-2] == ':':
+                # `Path::<T>::Variant` -> `Path::Variant`;  `Path::<T> { .. }` / `Path::<T>(..)` -> `Path { .. }` / `Path(..)`
                 out.pop(); out.pop()
             continue
         out.append(c)
@@ -86,8 +86,9 @@ def _project(desc, idx):
 
 
 class Exits:
-    def __init__(self, prog, body):
+    def __init__(self, prog, body, effects=False):
         self.prog, self.body = prog, body
+        self.effects = effects
         self.cfg = prog.cfg(body)
         self.D = Describer(body)
         self.du = DefUse(body)
@@ -296,7 +297,8 @@ class Exits:
                 return self.closure_desc(rhs)
             parts = mir.split_top(rhs[1:-1])
             return '[' + ', '.join(self.val(p, depth + 1) for p in parts) + ']'
-        am = re.match(r'^((?:[\w]+::)+)(\w+)(?:\((.*)\)| \{(.*)\})?$', strip_generics(rhs)) if re.match(r'^[A-Za-z]', rhs) else None
+        sg = strip_generics(rhs) if re.match(r'^[A-Za-z]', rhs) else ''
+        am = re.match(r'^((?:[\w]+::)+)(\w+)(?:\((.*)\)| \{(.*)\})?$', sg) or re.match(r'^()([A-Z]\w*)(?:\((.*)\)| \{(.*)\})$', sg)
         if am:
             head = am.group(2)
             segs = [x for x in am.group(1).split('::') if x]
@@ -589,6 +591,20 @@ class Exits:
         return edges
 
     # ---- exits -------------------------------------------------------------------------------
+    def param_root(self, loc, guard=0):
+        """The parameter a reference-valued local is (a reborrow / copy of), or None."""
+        for _ in range(30):
+            if loc in self.du.params:
+                return loc
+            ds = self.du.defs.get(loc, [])
+            if len(ds) != 1 or ds[0][0] != 'assign':
+                return None
+            m = re.fullmatch(r"(?:move |copy |deref_copy |&(?:mut )?)\(?\*?(_\d+)\)?", ds[0][2].rhs.strip())
+            if not m:
+                return None
+            loc = int(m.group(1)[1:])
+        return None
+
     def raw_exits(self):
         out = []
         for bid, blk in sorted(self.body.blocks.items()):
@@ -597,9 +613,24 @@ class Exits:
             for i, s in enumerate(blk.stmts):
                 if s.kind == 'assign' and s.lhs.strip() == '_0':
                     out.append((bid, s.span, self.rvalue(s.rhs), s.rhs.strip()))
+                elif self.effects and s.kind == 'assign':
+                    m = re.match(r'^\(+\*(_\d+)\)', s.lhs.strip())
+                    if m and self.param_root(int(m.group(1)[1:])) is not None:
+                        out.append((bid, s.span, 'write %s := %s' % (self.place(s.lhs), self.rvalue(s.rhs)), 'effect'))
             t = blk.term
             if t.kind == 'call' and t.dest and t.dest.strip() == '_0':
                 out.append((bid, t.span, self.call_desc(t), t.callee))
+            elif self.effects and t.kind == 'call' and t.args:
+                for a in t.args:
+                    m = re.fullmatch(r'(?:move |copy )?(_\d+)', a.strip())
+                    if not m:
+                        continue
+                    d = self.single_def(int(m.group(1)[1:]))
+                    if d and d[0] == 'assign':
+                        mm = re.match(r"^&mut \(+\*(_\d+)\)", d[2].rhs.strip())
+                        if mm and self.param_root(int(mm.group(1)[1:])) is not None:
+                            out.append((bid, t.span, 'mutate %s' % self.call_desc(t), 'effect'))
+                            break
         return out
 
     @staticmethod
@@ -611,7 +642,7 @@ class Exits:
         if re.match(r'^(StatusCode::with_context|StatusCode::into|Status::from|Status::new)\(StatusCode::(\w+)', label) or re.fullmatch(r'StatusCode::\w+', label):
             v = re.search(r'StatusCode::([A-Z][A-Za-z0-9]+)', label)
             return 'accept' if v and v.group(1) == 'OK' else 'reject'
-        if label == 'None' and ret_ty.strip().startswith(('Option<', 'std::option::Option<')):
+        if label in ('None', 'Option::None') and ret_ty.strip().startswith(('Option<', 'std::option::Option<')):
             return 'reject'
         if label.startswith('Some(') and ret_ty.strip().startswith(('Option<', 'std::option::Option<')):
             return 'accept'
